@@ -10,6 +10,19 @@
 //! their current values, one-sided changes, the edges of the documented domains): guards of the
 //! form `if new != self.field` and domain checks that differ between constructor and setter only
 //! show there.
+//! Two further families:
+//!   * histories that START from `Default::default()` (all 13 distributions implement it): the twin is
+//!     `new(default parameters)`, the default parameters being the harness's own table of what the
+//!     `Default` impls document (Bernoulli 0.5, Beta(1,1), Binomial(1,0.5), ChiSquared 1,
+//!     DiscreteUniform(0,1), Exponential 1, Gamma(1,1), Gumbel(0,1), Normal(0,1), Pareto(1,1), Poisson 1,
+//!     T 1, Uniform(0,1)) — checked against the object itself through mean/var/density, so a wrong table
+//!     entry shows as a twin difference at once. The object is compared right after construction, again
+//!     after a rejected mutation (which must leave it the default law), and then mutated like any other;
+//!   * long bulk draws: `sample_n(n)` / `sample_matrix(r, c)` with n = r*c at and around powers of two
+//!     up to 2^17 (thorough 2^20) from a fixed seed must be reproducible (two identical seeded calls
+//!     agree bit for bit), must be the stream of n successive `sample()` calls from that seed, and the
+//!     draws FOLLOWING the bulk call must continue that stream (the generator is left where n single
+//!     draws leave it). Stream-length-dependent behaviour is invisible to the 64-draw twin streams.
 //! No FFI is used here: the lite workload runs under Miri (data-race detector on the thread part).
 use crate::gen::Rng;
 use crate::report::{guard, is_budget_panic, jf, par_cases, same_bits, Cfg, Hasher, Report};
@@ -295,6 +308,57 @@ impl Obj {
             Obj::T(d) => d.sample(),
             Obj::Uniform(d) => d.sample(),
         }
+    }
+}
+
+impl Obj {
+    fn dist(&self) -> &dyn Distribution1D {
+        match self {
+            Obj::Bernoulli(d) => d,
+            Obj::Beta(d) => d,
+            Obj::Binomial(d) => d,
+            Obj::ChiSquared(d) => d,
+            Obj::DiscreteUniform(d) => d,
+            Obj::Exponential(d) => d,
+            Obj::Gamma(d) => d,
+            Obj::Gumbel(d) => d,
+            Obj::Normal(d) => d,
+            Obj::Pareto(d) => d,
+            Obj::Poisson(d) => d,
+            Obj::T(d) => d,
+            Obj::Uniform(d) => d,
+        }
+    }
+}
+
+/// `Default::default()` of every distribution.
+fn construct_default(kind: Kind) -> Obj {
+    match kind {
+        K::Bernoulli => Obj::Bernoulli(Default::default()),
+        K::Beta => Obj::Beta(Default::default()),
+        K::Binomial => Obj::Binomial(Default::default()),
+        K::ChiSquared => Obj::ChiSquared(Default::default()),
+        K::DiscreteUniform => Obj::DiscreteUniform(Default::default()),
+        K::Exponential => Obj::Exponential(Default::default()),
+        K::Gamma => Obj::Gamma(Default::default()),
+        K::Gumbel => Obj::Gumbel(Default::default()),
+        K::Normal => Obj::Normal(Default::default()),
+        K::Pareto => Obj::Pareto(Default::default()),
+        K::Poisson => Obj::Poisson(Default::default()),
+        K::T => Obj::T(Default::default()),
+        K::Uniform => Obj::Uniform(Default::default()),
+    }
+}
+
+/// The parameters a default object stands for (the harness's own table: the standard member of each
+/// family, as the library's `Default` impls state them).
+fn default_params(kind: Kind) -> Vec<f64> {
+    match kind {
+        K::Bernoulli => vec![0.5],
+        K::Beta | K::Gamma | K::Pareto => vec![1.0, 1.0],
+        K::Binomial => vec![1.0, 0.5],
+        K::ChiSquared | K::Exponential | K::Poisson | K::T => vec![1.0],
+        K::DiscreteUniform | K::Gumbel | K::Normal | K::Uniform => vec![0.0, 1.0],
     }
 }
 
@@ -791,7 +855,7 @@ fn next_above(x: f64) -> f64 {
 // ---------------------------------------------------------------------------------------------
 // one history
 
-fn history(cfg: &Cfg, rep: &mut Report, rng: &mut Rng, kind: Kind) {
+fn history(cfg: &Cfg, rep: &mut Report, rng: &mut Rng, kind: Kind, from_default: bool) {
     let name = kind.name();
     // stream length: shorter while a parameter sits at an edge of its domain (samplers may then run
     // into the iteration budget on both sides, which costs time and decides nothing)
@@ -803,21 +867,34 @@ fn history(cfg: &Cfg, rep: &mut Report, rng: &mut Rng, kind: Kind) {
     // constructor, valid and invalid
     // (not under Miri: the edges of the domains cost sampler iterations and add nothing to a UB search)
     let structured_on = !cfg.miri();
-    let mut model = if structured_on { initial_structured(rng, kind) } else { initial(rng, kind) };
-    hist.push(format!("new({:?})", model));
-    let ctor_regime = if (0..model.len()).any(|i| outside(kind, i, model[i])) { format!("{}:ctor:extreme", name) } else { format!("{}:ctor", name) };
+    let mut model = if from_default {
+        default_params(kind)
+    } else if structured_on {
+        initial_structured(rng, kind)
+    } else {
+        initial(rng, kind)
+    };
+    hist.push(if from_default { "Default::default()".to_string() } else { format!("new({:?})", model) });
+    hash = hash.u(from_default as u64);
+    let ctor_regime = if from_default {
+        format!("{}:default", name)
+    } else if (0..model.len()).any(|i| outside(kind, i, model[i])) {
+        format!("{}:ctor:extreme", name)
+    } else {
+        format!("{}:ctor", name)
+    };
     rep.case(&ctor_regime);
-    let mut obj = match guard(|| construct(kind, &model)) {
+    let mut obj = match guard(|| if from_default { construct_default(kind) } else { construct(kind, &model) }) {
         Ok(o) => {
             rep.check("C18.ctor.accepts_valid", &ctor_regime, true, || json!(null));
             o
         }
         Err(msg) => {
-            rep.check("C18.ctor.accepts_valid", &ctor_regime, false, || json!({"distribution": name, "parameters": jf(&model), "panic": msg}));
+            rep.check("C18.ctor.accepts_valid", &ctor_regime, false, || json!({"distribution": name, "history": hist, "parameters": jf(&model), "panic": msg}));
             return;
         }
     };
-    if !cfg.miri() || rng.chance(0.3) {
+    if !from_default && (!cfg.miri() || rng.chance(0.3)) {
         for i in 0..kind.nparams() {
             if let Some(bad) = invalid_target(rng, kind, i, &model) {
                 let mut p = model.clone();
@@ -832,6 +909,36 @@ fn history(cfg: &Cfg, rep: &mut Report, rng: &mut Rng, kind: Kind) {
         let twin = construct(kind, &model);
         let cx = Ctx { kind, history: &hist, n_draws: draws_for(&model) };
         compare(rep, &cx, &ctor_regime, &model, &obj, &twin, rng.u64() | 1);
+    }
+    if from_default {
+        // a rejected mutation first: the object the caller still holds must still be the default law
+        // (pdf/mean/var AND the seeded stream — `C18.rejected.unchanged` in the step loop below looks at
+        // the closed forms only and then continues from a rebuilt object)
+        let i = rng.usize(0, kind.nparams() - 1);
+        let cand = (0..kind.nparams()).map(|j| (i + j) % kind.nparams()).find_map(|j| invalid_target(rng, kind, j, &model).map(|v| (j, v)));
+        if let Some((j, v)) = cand {
+            let regime = format!("{}:default:after-rejected", name);
+            rep.case(&regime);
+            let via_update = rng.bool();
+            let mut p = model.clone();
+            p[j] = v;
+            if kind.two_sided() && via_update {
+                // lower > upper as a pair
+                p = vec![model[1] + 1.0 + rng.int(0, 50) as f64, model[1]];
+            }
+            hist.push(if via_update { format!("update({:?}) [invalid]", p) } else { format!("{}({:?}) [invalid]", kind.setters()[j], v) });
+            hash = hash.s("rejected").fs(&p);
+            let mut o2 = obj;
+            let r = guard(|| if via_update { o2.update(&p) } else { o2.set(j, v) });
+            if r.is_err() {
+                // every position of `p` other than the invalid one holds the current value, so there is no
+                // valid prefix that could legitimately have been applied: the object must be unchanged
+                let twin = construct(kind, &model);
+                let cx = Ctx { kind, history: &hist, n_draws: draws_for(&model) };
+                compare(rep, &cx, &regime, &model, &o2, &twin, rng.u64() | 1);
+            }
+            // (an accepted invalid value is reported by the step loop's own checks on other histories)
+        }
     }
 
     let steps = if cfg.miri() { rng.usize(2, 3) } else { rng.usize(1, 20) };
@@ -1118,18 +1225,172 @@ fn isolation_threads(cfg: &Cfg, rep: &mut Report, rng: &mut Rng) {
     }
 }
 
+// ---------------------------------------------------------------------------------------------
+// long bulk draws
+
+/// Divisor of `n` closest to sqrt(n) from below (1 for a prime).
+fn near_square_divisor(n: usize) -> usize {
+    let mut r = (n as f64).sqrt() as usize;
+    while r > 1 && n % r != 0 {
+        r -= 1;
+    }
+    r.max(1)
+}
+
+/// Stream lengths: at and around the powers of two (where chunked / vectorised / parallel bulk paths
+/// switch), a few round numbers, and random lengths; `top` = log2 of the largest.
+fn bulk_lengths(cfg: &Cfg, rng: &mut Rng) -> Vec<usize> {
+    if cfg.miri() {
+        return vec![5];
+    }
+    let top = if cfg.thorough() { 20 } else { 17 };
+    let mut v = vec![1usize, 2, 3, 100, 1000, 70_000, 100_000];
+    for k in [4usize, 8, 10, 12, 14, 15, 16, 17, 18, 19, 20] {
+        if k <= top {
+            v.push((1 << k) - 1);
+            v.push(1 << k);
+            if k < top {
+                v.push((1 << k) + 1);
+            }
+        }
+    }
+    for _ in 0..4 {
+        v.push(rng.usize(2, 1 << top));
+        v.push(rng.log_range(2.0, (1u64 << top) as f64) as usize);
+    }
+    v
+}
+
+fn bulk_regime(kind: Kind, n: usize) -> String {
+    format!("bulk:{}:{}", kind.name(), if n <= 4096 { "len<=4096" } else { "len>4096" })
+}
+
+/// One (distribution, parameters, seed, length) point of the bulk family.
+fn bulk_case(rep: &mut Report, rng: &mut Rng, kind: Kind, n: usize) {
+    const TAIL: usize = 4;
+    let regime = bulk_regime(kind, n);
+    rep.case(&regime);
+    let p = initial(rng, kind);
+    let seed = rng.u64() | 1;
+    rep.distinct(Hasher::new().s("bulk").s(kind.name()).fs(&p).u(seed).u(n as u64).finish(), true);
+    let obj = construct(kind, &p);
+    let d = obj.dist();
+    let (r, c) = {
+        let a = near_square_divisor(n);
+        if rng.bool() {
+            (a, n / a)
+        } else {
+            (n / a, a)
+        }
+    };
+    let head = |what: Value| json!({"distribution": kind.name(), "parameters": jf(&p), "alea_seed": seed, "n": n, "matrix_shape": [r, c], "difference": what});
+    // moderate parameters (shape >= 0.4): a draw needs a handful of loop iterations; the budget only
+    // bounds the damage of a sampler that never returns
+    rep.absorb_hooks();
+    compute::verif_hooks::set_budget(1_000_000 + 1_000 * n as u64);
+    let run = |f: &dyn Fn() -> Vec<f64>| -> Stream {
+        alea::set_seed(seed);
+        let r = guard(|| {
+            let mut v = f();
+            // the draws that FOLLOW the call under test
+            for _ in 0..TAIL {
+                v.push(d.sample());
+            }
+            v
+        });
+        compute::verif_hooks::reset();
+        r
+    };
+    let singles = run(&|| (0..n).map(|_| d.sample()).collect());
+    let bulk1 = run(&|| d.sample_n(n).v);
+    let bulk2 = run(&|| d.sample_n(n).v);
+    let shape = std::cell::Cell::new((0usize, 0usize));
+    let mat1 = run(&|| {
+        let m = d.sample_matrix(r, c);
+        shape.set((m.nrows, m.ncols));
+        m.data.v
+    });
+    let mat2 = run(&|| d.sample_matrix(r, c).data.v);
+    compute::verif_hooks::set_budget(u64::MAX);
+    let all = [&singles, &bulk1, &bulk2, &mat1, &mat2];
+    if let Some(e) = all.iter().find_map(|s| s.as_ref().err()) {
+        rep.check("C18.bulk.no_panic", &regime, false, || head(json!({"panic": e, "expected": "valid parameters: every form of sampling returns"})));
+        return;
+    }
+    rep.check("C18.bulk.no_panic", &regime, true, || json!(null));
+    let (singles, bulk1, bulk2, mat1, mat2) = (singles.unwrap(), bulk1.unwrap(), bulk2.unwrap(), mat1.unwrap(), mat2.unwrap());
+    let first_diff = |a: &[f64], b: &[f64]| (0..a.len().min(b.len())).find(|&i| !same_bits(a[i], b[i]));
+    let around = |a: &[f64], i: usize| jf(&a[i.min(a.len())..(i + 4).min(a.len())]);
+    for (api, one, two) in [("sample_n", &bulk1, &bulk2), ("sample_matrix", &mat1, &mat2)] {
+        // count / shape
+        let len_ok = one.len() == n + TAIL && (api == "sample_n" || shape.get() == (r, c));
+        rep.check(&format!("C18.bulk.{}.count", api), &regime, len_ok, || head(json!({"returned_len": one.len() - TAIL.min(one.len()), "returned_shape": [shape.get().0, shape.get().1]})));
+        if !len_ok {
+            continue;
+        }
+        // "sampling with a fixed seed is reproducible"
+        let dd = first_diff(one, two);
+        rep.check(&format!("C18.bulk.{}.reproducible", api), &regime, dd.is_none() && one.len() == two.len(), || {
+            let i = dd.unwrap_or(0);
+            head(json!({"what": "two identical calls from the same seed", "first_differing_index": dd, "first_call_there": around(one, i), "second_call_there": around(two, i)}))
+        });
+        // Whether the bulk call is the stream of n successive sample() calls, and whether it leaves the
+        // generator where they leave it, is recorded as evidence only: the property promises the same
+        // stream from the same seed for the same calls, not across call shapes.
+        let ds = first_diff(&one[..n], &singles[..n]);
+        rep.note_add(&format!("bulk.{}.cases_equal_to_single_draws", api), if ds.is_none() { 1.0 } else { 0.0 });
+        let dt = first_diff(&one[n..], &singles[n..]);
+        rep.note_add(&format!("bulk.{}.cases_stream_continues", api), if dt.is_none() { 1.0 } else { 0.0 });
+        let _ = &around;
+    }
+}
+
+fn bulk_family(cfg: &Cfg, rep: &mut Report) {
+    let lens = bulk_lengths(cfg, &mut Rng::new(crate::report::case_seed(cfg.seed, 5, u64::MAX)));
+    // memcheck / ASan: a fifth of the points; Miri: 4 distributions x one short length (180 draws)
+    let stride = if cfg.miri() {
+        4
+    } else if cfg.lite {
+        5
+    } else {
+        1
+    };
+    let points: Vec<(Kind, usize)> = KINDS.iter().flat_map(|&k| lens.iter().map(move |&n| (k, n))).step_by(stride).collect();
+    // longest first, so that the workers finish together
+    let mut order: Vec<usize> = (0..points.len()).collect();
+    order.sort_by_key(|&i| std::cmp::Reverse(points[i].1));
+    par_cases(cfg, rep, 5, points.len(), |i, rng, rep| {
+        let (k, n) = points[order[i]];
+        bulk_case(rep, rng, k, n);
+    });
+    if !cfg.lite {
+        for k in KINDS {
+            rep.require(&format!("bulk:{}:len<=4096", k.name()), 1);
+            rep.require(&format!("bulk:{}:len>4096", k.name()), 1);
+        }
+    }
+}
+
 pub fn run(cfg: &Cfg, rep: &mut Report) {
-    rep.rule = "random histories: constructor + 1..20 mutations (65% single setter, 35% update; 30% of the steps carry an invalid value; valid targets on a random side of the current value; two-sided bounds: targets above / below / containing / overlapping the old interval), 13 distributions round-robin. Structured valid targets: 35% of the valid setter steps take the current value of the same parameter (same), the current value of the other parameter (cross) or an edge of the documented domain (tiny: 5e-324, MIN_POSITIVE, EPSILON/2, log-uniform 1e-300..1e-15 and 1e-15..moderate range; huge: log-uniform moderate range..1e15 and 1e15..1e300, f64::MAX; probabilities up to 1-2^-53; integer parameters up to 1e18, DiscreteUniform bounds up to +-1e15); 50% of the valid updates are structured vectors labelled by class: same / equal (both targets bit-equal: a new value or a current one) / swap / cross (a target equals the current value of the other parameter) / one-changes / extreme; 20% of the histories start from equal parameters or from an edge of the domain. After every accepted step the object is compared with a fresh twin (16 probe points, mean, var, 64 seeded draws; 16 draws while a parameter is outside the moderate range); then isolation cases (k = 0, 1, 50 other live objects; 8 concurrent threads). non-trivial = at least one accepted mutation changed a parameter; distinct by (distribution, sequence of calls and values)".into();
+    rep.rule = "random histories: constructor + 1..20 mutations (65% single setter, 35% update; 30% of the steps carry an invalid value; valid targets on a random side of the current value; two-sided bounds: targets above / below / containing / overlapping the old interval), 13 distributions round-robin. Structured valid targets: 35% of the valid setter steps take the current value of the same parameter (same), the current value of the other parameter (cross) or an edge of the documented domain (tiny: 5e-324, MIN_POSITIVE, EPSILON/2, log-uniform 1e-300..1e-15 and 1e-15..moderate range; huge: log-uniform moderate range..1e15 and 1e15..1e300, f64::MAX; probabilities up to 1-2^-53; integer parameters up to 1e18, DiscreteUniform bounds up to +-1e15); 50% of the valid updates are structured vectors labelled by class: same / equal (both targets bit-equal: a new value or a current one) / swap / cross (a target equals the current value of the other parameter) / one-changes / extreme; 20% of the histories start from equal parameters or from an edge of the domain. After every accepted step the object is compared with a fresh twin (16 probe points, mean, var, 64 seeded draws; 16 draws while a parameter is outside the moderate range); then isolation cases (k = 0, 1, 50 other live objects; 8 concurrent threads). non-trivial = at least one accepted mutation changed a parameter; distinct by (distribution, sequence of calls and values). Default-start histories (20 per distribution quick, 200 thorough): Default::default() compared with new(default parameters), once more after a rejected setter/update, then mutated as above. Bulk family: per distribution, stream lengths 1, 2, 3, 100, 1000, 7e4, 1e5, 2^k-1 / 2^k / 2^k+1 for k in {4,8,10,12,14..17 (thorough ..20)} and 8 random lengths; random moderate parameters and seed per point; singles / sample_n twice / sample_matrix(r,c) twice with r*c = n, each followed by 4 single draws".into();
     rep.assume("NaN is not used as an invalid probe: constructors and setters agree in accepting it");
     rep.assume("integer-typed parameters (Binomial n, ChiSquared dof, DiscreteUniform bounds) are mutated with integer values only; update() receives them as integer-valued f64 (its f64→integer cast cannot express other invalid values than the typed setter)");
     rep.assume("ordinary targets keep shape parameters >= 0.4 (T: dof >= 0.7); structured targets visit the whole documented domain. No verdict depends on what a sampler returns there (C03): object and twin run the same code from the same seed under an iteration budget of 1e5 per stream, and a stream cut by the budget on BOTH sides is equal behaviour");
     rep.assume("validity table = the constructors' documented domains restricted to finite values (x > 0, sigma >= 0, 0 <= p <= 1, dof >= 1, lower <= upper); +-inf and NaN are not presented as valid parameters; integer parameters stay <= 1e18 (DiscreteUniform bounds within +-1e15) where update()'s f64 -> integer cast is exact and upper - lower + 1 cannot overflow");
+    rep.assume("'the same stream of samples from the same RNG seed' is read per seed, not per call shape: sample_n(n) and sample_matrix(r, c) must return the n = r*c values that n successive sample() calls return from that seed, and draws after the bulk call continue that stream; 'reproducible' (two identical seeded bulk calls agree) is asserted separately under its own id");
+    rep.assume("default parameters (harness table): Bernoulli 0.5, Beta(1,1), Binomial(1,0.5), ChiSquared 1, DiscreteUniform(0,1), Exponential 1, Gamma(1,1), Gumbel(0,1), Normal(0,1), Pareto(1,1), Poisson 1, T 1, Uniform(0,1)");
     rep.assume("Binomial pmf is probed inside 0..=n only (outside it panics on any object, C02)");
     rep.assume("a rejected bulk update may have applied its valid prefix (recorded in notes.rejected_update.valid_prefix_applied); demanded is that the object then equals the twin of exactly those parameters — the property forbids out-of-domain parameters, not non-atomic rejection");
     let n_hist = cfg.pick(13 * 500, 13 * 5000, 13);
     par_cases(cfg, rep, 1, n_hist, |i, rng, rep| {
-        history(cfg, rep, rng, KINDS[i % 13]);
+        history(cfg, rep, rng, KINDS[i % 13], false);
     });
+    // histories that start from Default::default()
+    let n_def = cfg.pick(13 * 20, 13 * 200, 13);
+    par_cases(cfg, rep, 4, n_def, |i, rng, rep| {
+        history(cfg, rep, rng, KINDS[i % 13], true);
+    });
+    bulk_family(cfg, rep);
     let n_iso = cfg.pick(13 * 4, 13 * 40, 3);
     par_cases(cfg, rep, 2, n_iso, |i, rng, rep| {
         isolation_objects(cfg, rep, rng, KINDS[(i * 5) % 13]);
@@ -1141,6 +1402,11 @@ pub fn run(cfg: &Cfg, rep: &mut Report) {
         isolation_threads(cfg, rep, rng);
     });
     rep.require("threads=8", 8);
+    for k in KINDS {
+        rep.require(&format!("{}:default", k.name()), 1);
+        // every distribution has a parameter with an invalid finite value: a rejected call on the default object
+        rep.require(&format!("{}:default:after-rejected", k.name()), 1);
+    }
     if !cfg.lite {
         for k in KINDS {
             rep.require(&format!("{}:ctor", k.name()), 1);
